@@ -143,14 +143,14 @@ type vLine struct {
 	// RSK: after a revocation was received, how many of the peer's secrets
 	// 0..k-1 a STALE handle on the channel (what the chain watcher holds)
 	// reproduces exactly through RemoteRevocationStore (-1: not evaluated)
-	RSK int64 `json:"rsk"`
-	NTx   map[string]int64  `json:"ntx,omitempty"`
-	Type  string            `json:"type,omitempty"`
+	RSK    int64            `json:"rsk"`
+	NTx    map[string]int64 `json:"ntx,omitempty"`
+	Type   string           `json:"type,omitempty"`
 	Opener string           `json:"opener,omitempty"`
-	Dust   map[string]int64  `json:"dust,omitempty"`
-	Thaw   uint32            `json:"thaw"`
-	NoDLP  int               `json:"nodlp"`
-	File  string            `json:"file,omitempty"`
+	Dust   map[string]int64 `json:"dust,omitempty"`
+	Thaw   uint32           `json:"thaw"`
+	NoDLP  int              `json:"nodlp"`
+	File   string           `json:"file,omitempty"`
 }
 
 type vSide struct {
@@ -439,6 +439,9 @@ func vStaleSecrets(stale *channeldb.OpenChannel, peer *LightningChannel) int64 {
 	return n
 }
 
+// verifDiverged: a schedule step the real objects cannot take.
+type verifDiverged string
+
 func vIsConstraintErr(err error) bool {
 	if err == nil {
 		return false
@@ -518,251 +521,265 @@ func TestVerifChannelExec(t *testing.T) {
 		for n, s := range sides {
 			lastTx[n] = vDbTxid(s.lc)
 		}
-		for _, e := range evs[1:] {
-			me := sides[e.P]
-			peer := sides[other[e.P]]
-			var err error
-			txeq, relh := -1, int64(-1)
-			nph, lup, crp, nrk, rsk := int64(-1), int64(-1), int64(-1), int64(-1), int64(-1)
-			pop := func() vMsg {
-				if len(peer.out) == 0 {
-					t.Fatalf("%s: %v: peer queue empty", f, e)
-				}
-				m := peer.out[0]
-				peer.out = peer.out[1:]
-				return m
-			}
-			name := e.A
-			switch e.A {
-			case "Add":
-				var pre [32]byte
-				expiry := uint32(500)
-				key := fmt.Sprintf("%s/%d", e.P, e.X)
-				if lp, ok := lastPre[key]; ok && e.Y == 1 {
-					// equal-hash duplicate: alternately fully identical and with
-					// a different CLTV expiry (BIP69+CLTV tie-break in the sort)
-					pre = lp
-					ndup++
-					if ndup%2 == 1 {
-						expiry = 509
+		// a schedule step that the real objects cannot take (the peer never
+		// produced the message to deliver) ends this behaviour: the recorded
+		// prefix already holds the deviating step and TLC judges it
+		func() {
+			defer func() {
+				if r := recover(); r != nil {
+					d, is := r.(verifDiverged)
+					if !is {
+						panic(r)
 					}
-				} else {
-					npre++
-					pre[0], pre[1], pre[2] = byte(npre), byte(npre>>8), 0x5a
+					t.Logf("VERIF-DIVERGED %s", string(d))
 				}
-				lastPre[key] = pre
-				h := sha256.Sum256(pre[:])
-				pres[h] = pre
-				htlc := &lnwire.UpdateAddHTLC{
-					ID: me.lc.updateLogs.Local.htlcCounter, PaymentHash: h,
-					Amount: lnwire.MilliSatoshi(e.X), Expiry: expiry,
-				}
-				_, err = me.lc.AddHTLC(htlc, nil)
-				if err == nil {
-					me.out = append(me.out, vMsg{kind: "add", add: htlc})
-				} else if vIsConstraintErr(err) {
-					name = "AddRejected"
-				}
-			case "Resolve":
-				var pd *paymentDescriptor
-				for x := me.lc.updateLogs.Remote.Front(); x != nil; x = x.Next() {
-					if x.Value.isAdd() && x.Value.HtlcIndex == uint64(e.X) {
-						pd = x.Value
+			}()
+			for _, e := range evs[1:] {
+				me := sides[e.P]
+				peer := sides[other[e.P]]
+				var err error
+				txeq, relh := -1, int64(-1)
+				nph, lup, crp, nrk, rsk := int64(-1), int64(-1), int64(-1), int64(-1), int64(-1)
+				pop := func() vMsg {
+					if len(peer.out) == 0 {
+						panic(verifDiverged(fmt.Sprintf("%s: %v: peer queue empty", f, e)))
 					}
+					m := peer.out[0]
+					peer.out = peer.out[1:]
+					return m
 				}
-				if pd == nil {
-					err = fmt.Errorf("htlc %d not in remote log", e.X)
-					break
-				}
-				if e.Y == 1 {
-					pre := pres[pd.RHash]
-					err = me.lc.SettleHTLC(pre, pd.HtlcIndex, vSourceRef(me.lc, pd.HtlcIndex), nil, nil)
+				name := e.A
+				switch e.A {
+				case "Add":
+					var pre [32]byte
+					expiry := uint32(500)
+					key := fmt.Sprintf("%s/%d", e.P, e.X)
+					if lp, ok := lastPre[key]; ok && e.Y == 1 {
+						// equal-hash duplicate: alternately fully identical and with
+						// a different CLTV expiry (BIP69+CLTV tie-break in the sort)
+						pre = lp
+						ndup++
+						if ndup%2 == 1 {
+							expiry = 509
+						}
+					} else {
+						npre++
+						pre[0], pre[1], pre[2] = byte(npre), byte(npre>>8), 0x5a
+					}
+					lastPre[key] = pre
+					h := sha256.Sum256(pre[:])
+					pres[h] = pre
+					htlc := &lnwire.UpdateAddHTLC{
+						ID: me.lc.updateLogs.Local.htlcCounter, PaymentHash: h,
+						Amount: lnwire.MilliSatoshi(e.X), Expiry: expiry,
+					}
+					_, err = me.lc.AddHTLC(htlc, nil)
 					if err == nil {
-						me.out = append(me.out, vMsg{kind: "settle", id: pd.HtlcIndex, pre: pre})
+						me.out = append(me.out, vMsg{kind: "add", add: htlc})
+					} else if vIsConstraintErr(err) {
+						name = "AddRejected"
 					}
-				} else if e.Y == 2 {
-					// update_fail_malformed_htlc: the receiver handles it like a fail
-					err = me.lc.MalformedFailHTLC(
-						pd.HtlcIndex, lnwire.CodeInvalidOnionHmac, sha256.Sum256([]byte("onion")),
-						vSourceRef(me.lc, pd.HtlcIndex),
-					)
-					if err == nil {
-						me.out = append(me.out, vMsg{kind: "fail", id: pd.HtlcIndex})
+				case "Resolve":
+					var pd *paymentDescriptor
+					for x := me.lc.updateLogs.Remote.Front(); x != nil; x = x.Next() {
+						if x.Value.isAdd() && x.Value.HtlcIndex == uint64(e.X) {
+							pd = x.Value
+						}
 					}
-				} else {
-					err = me.lc.FailHTLC(pd.HtlcIndex, []byte("x"), vSourceRef(me.lc, pd.HtlcIndex), nil, nil)
-					if err == nil {
-						me.out = append(me.out, vMsg{kind: "fail", id: pd.HtlcIndex})
-					}
-				}
-			case "Sign":
-				var ns *NewCommitState
-				ns, err = me.lc.SignNextCommitment(ctxb)
-				if err == nil {
-					me.out = append(me.out, vMsg{kind: "sig", sigs: ns.CommitSigs})
-				}
-			case "RecvAdd":
-				_, err = me.lc.ReceiveHTLC(pop().add)
-			case "RecvRes":
-				m := pop()
-				if m.kind == "settle" {
-					err = me.lc.ReceiveHTLCSettle(m.pre, m.id)
-				} else {
-					err = me.lc.ReceiveFailHTLC(m.id, []byte("x"))
-				}
-			case "RecvSig":
-				err = me.lc.ReceiveNewCommitment(pop().sigs)
-				if err == nil {
-					mine := me.lc.commitChains.Local.tip().txn
-					theirs := peer.lc.commitChains.Remote.tip().txn
-					txeq = 0
-					if mine != nil && theirs != nil && mine.TxHash() == theirs.TxHash() {
-						txeq = 1
-					}
-				}
-			case "Revoke":
-				var rev *lnwire.RevokeAndAck
-				rev, _, _, err = me.lc.RevokeCurrentCommitment()
-				if err == nil {
-					me.out = append(me.out, vMsg{kind: "rev", rev: rev})
-					relh = vRelHeight(me.lc, rev)
-					nph = vPointIndex(me.lc, rev.NextRevocationKey)
-				}
-			case "RecvRev":
-				_, _, err = me.lc.ReceiveRevocation(pop().rev)
-				if err == nil {
-					rsk = vStaleSecrets(me.stale, peer.lc)
-				}
-			case "UpdateFee":
-				err = me.lc.UpdateFee(chainfee.SatPerKWeight(e.X))
-				if err == nil {
-					me.out = append(me.out, vMsg{kind: "fee", fee: int64(e.X)})
-				}
-			case "RecvFee":
-				err = me.lc.ReceiveUpdateFee(chainfee.SatPerKWeight(pop().fee))
-			case "Disconnect":
-				for _, s := range sides {
-					var nlc *LightningChannel
-					if nlc, err = vReload(s.lc); err != nil {
+					if pd == nil {
+						err = fmt.Errorf("htlc %d not in remote log", e.X)
 						break
 					}
-					s.lc = nlc
-					s.out = nil
-				}
-			case "SoftDisconnect":
-				// the transport dropped, nobody reloaded the channels
-				for _, s := range sides {
-					s.out = nil
-				}
-			case "StaleTouch":
-				// a status update that sets no bit, through the stale handle
-				err = me.stale.ApplyChanStatus(channeldb.ChanStatusDefault)
-			case "SendReest":
-				var m *lnwire.ChannelReestablish
-				m, err = me.lc.channelState.ChanSyncMsg()
-				if err == nil {
-					lup = vPointIndex(me.lc, m.LocalUnrevokedCommitPoint)
-					// the two places a channel_ready is re-sent from on reconnect
-					if pt, perr := me.lc.channelState.SecondCommitmentPoint(); perr == nil {
-						crp = vPointIndex(me.lc, pt)
-					}
-					if pt, perr := me.lc.NextRevocationKey(); perr == nil {
-						nrk = vPointIndex(me.lc, pt)
-					}
-					if me.lc.channelState.ChanType.IsTaproot() {
-						// what the peer package does with the nonce it has
-						// just put into channel_reestablish
-						txid := me.lc.channelState.FundingOutpoint.Hash
-						var nonce lnwire.Musig2Nonce
-						if m.LocalNonces.IsSome() {
-							nonce = m.LocalNonces.UnsafeFromSome().NoncesMap[txid]
-						} else {
-							nonce = m.LocalNonce.UnwrapOrFailV(t)
+					if e.Y == 1 {
+						pre := pres[pd.RHash]
+						err = me.lc.SettleHTLC(pre, pd.HtlcIndex, vSourceRef(me.lc, pd.HtlcIndex), nil, nil)
+						if err == nil {
+							me.out = append(me.out, vMsg{kind: "settle", id: pd.HtlcIndex, pre: pre})
 						}
-						me.lc.pendingVerificationNonce = &musig2.Nonces{PubNonce: nonce}
+					} else if e.Y == 2 {
+						// update_fail_malformed_htlc: the receiver handles it like a fail
+						err = me.lc.MalformedFailHTLC(
+							pd.HtlcIndex, lnwire.CodeInvalidOnionHmac, sha256.Sum256([]byte("onion")),
+							vSourceRef(me.lc, pd.HtlcIndex),
+						)
+						if err == nil {
+							me.out = append(me.out, vMsg{kind: "fail", id: pd.HtlcIndex})
+						}
+					} else {
+						err = me.lc.FailHTLC(pd.HtlcIndex, []byte("x"), vSourceRef(me.lc, pd.HtlcIndex), nil, nil)
+						if err == nil {
+							me.out = append(me.out, vMsg{kind: "fail", id: pd.HtlcIndex})
+						}
 					}
-					if noDLP {
-						// an honest peer that does not send the optional
-						// data-loss-protect fields
-						m.LocalUnrevokedCommitPoint = nil
-						m.LastRemoteCommitSecret = [32]byte{}
+				case "Sign":
+					var ns *NewCommitState
+					ns, err = me.lc.SignNextCommitment(ctxb)
+					if err == nil {
+						me.out = append(me.out, vMsg{kind: "sig", sigs: ns.CommitSigs})
 					}
-					me.out = append(me.out, vMsg{kind: "reest", reest: m})
+				case "RecvAdd":
+					_, err = me.lc.ReceiveHTLC(pop().add)
+				case "RecvRes":
+					m := pop()
+					if m.kind == "settle" {
+						err = me.lc.ReceiveHTLCSettle(m.pre, m.id)
+					} else {
+						err = me.lc.ReceiveFailHTLC(m.id, []byte("x"))
+					}
+				case "RecvSig":
+					err = me.lc.ReceiveNewCommitment(pop().sigs)
+					if err == nil {
+						mine := me.lc.commitChains.Local.tip().txn
+						theirs := peer.lc.commitChains.Remote.tip().txn
+						txeq = 0
+						if mine != nil && theirs != nil && mine.TxHash() == theirs.TxHash() {
+							txeq = 1
+						}
+					}
+				case "Revoke":
+					var rev *lnwire.RevokeAndAck
+					rev, _, _, err = me.lc.RevokeCurrentCommitment()
+					if err == nil {
+						me.out = append(me.out, vMsg{kind: "rev", rev: rev})
+						relh = vRelHeight(me.lc, rev)
+						nph = vPointIndex(me.lc, rev.NextRevocationKey)
+					}
+				case "RecvRev":
+					_, _, err = me.lc.ReceiveRevocation(pop().rev)
+					if err == nil {
+						rsk = vStaleSecrets(me.stale, peer.lc)
+					}
+				case "UpdateFee":
+					err = me.lc.UpdateFee(chainfee.SatPerKWeight(e.X))
+					if err == nil {
+						me.out = append(me.out, vMsg{kind: "fee", fee: int64(e.X)})
+					}
+				case "RecvFee":
+					err = me.lc.ReceiveUpdateFee(chainfee.SatPerKWeight(pop().fee))
+				case "Disconnect":
+					for _, s := range sides {
+						var nlc *LightningChannel
+						if nlc, err = vReload(s.lc); err != nil {
+							break
+						}
+						s.lc = nlc
+						s.out = nil
+					}
+				case "SoftDisconnect":
+					// the transport dropped, nobody reloaded the channels
+					for _, s := range sides {
+						s.out = nil
+					}
+				case "StaleTouch":
+					// a status update that sets no bit, through the stale handle
+					err = me.stale.ApplyChanStatus(channeldb.ChanStatusDefault)
+				case "SendReest":
+					var m *lnwire.ChannelReestablish
+					m, err = me.lc.channelState.ChanSyncMsg()
+					if err == nil {
+						lup = vPointIndex(me.lc, m.LocalUnrevokedCommitPoint)
+						// the two places a channel_ready is re-sent from on reconnect
+						if pt, perr := me.lc.channelState.SecondCommitmentPoint(); perr == nil {
+							crp = vPointIndex(me.lc, pt)
+						}
+						if pt, perr := me.lc.NextRevocationKey(); perr == nil {
+							nrk = vPointIndex(me.lc, pt)
+						}
+						if me.lc.channelState.ChanType.IsTaproot() {
+							// what the peer package does with the nonce it has
+							// just put into channel_reestablish
+							txid := me.lc.channelState.FundingOutpoint.Hash
+							var nonce lnwire.Musig2Nonce
+							if m.LocalNonces.IsSome() {
+								nonce = m.LocalNonces.UnsafeFromSome().NoncesMap[txid]
+							} else {
+								nonce = m.LocalNonce.UnwrapOrFailV(t)
+							}
+							me.lc.pendingVerificationNonce = &musig2.Nonces{PubNonce: nonce}
+						}
+						if noDLP {
+							// an honest peer that does not send the optional
+							// data-loss-protect fields
+							m.LocalUnrevokedCommitPoint = nil
+							m.LastRemoteCommitSecret = [32]byte{}
+						}
+						me.out = append(me.out, vMsg{kind: "reest", reest: m})
+					}
+				case "RecvReest":
+					var msgs []lnwire.Message
+					msgs, _, _, err = me.lc.ProcessChanSyncMsg(ctxb, pop().reest)
+					for _, x := range msgs {
+						switch mm := x.(type) {
+						case *lnwire.UpdateAddHTLC:
+							me.out = append(me.out, vMsg{kind: "add", add: mm})
+						case *lnwire.UpdateFulfillHTLC:
+							me.out = append(me.out, vMsg{kind: "settle", id: mm.ID, pre: mm.PaymentPreimage})
+						case *lnwire.UpdateFailHTLC:
+							me.out = append(me.out, vMsg{kind: "fail", id: mm.ID})
+						case *lnwire.UpdateFailMalformedHTLC:
+							me.out = append(me.out, vMsg{kind: "fail", id: mm.ID})
+						case *lnwire.UpdateFee:
+							me.out = append(me.out, vMsg{kind: "fee", fee: int64(mm.FeePerKw)})
+						case *lnwire.CommitSig:
+							me.out = append(me.out, vMsg{kind: "sig", sigs: &CommitSigs{
+								CommitSig: mm.CommitSig, HtlcSigs: mm.HtlcSigs, PartialSig: mm.PartialSig}})
+						case *lnwire.RevokeAndAck:
+							me.out = append(me.out, vMsg{kind: "rev", rev: mm})
+							relh = vRelHeight(me.lc, mm)
+							nph = vPointIndex(me.lc, mm.NextRevocationKey)
+						default:
+							me.out = append(me.out, vMsg{kind: fmt.Sprintf("%T", x)})
+						}
+					}
+				default:
+					t.Fatalf("unknown action %q", e.A)
 				}
-			case "RecvReest":
-				var msgs []lnwire.Message
-				msgs, _, _, err = me.lc.ProcessChanSyncMsg(ctxb, pop().reest)
-				for _, x := range msgs {
-					switch mm := x.(type) {
-					case *lnwire.UpdateAddHTLC:
-						me.out = append(me.out, vMsg{kind: "add", add: mm})
-					case *lnwire.UpdateFulfillHTLC:
-						me.out = append(me.out, vMsg{kind: "settle", id: mm.ID, pre: mm.PaymentPreimage})
-					case *lnwire.UpdateFailHTLC:
-						me.out = append(me.out, vMsg{kind: "fail", id: mm.ID})
-					case *lnwire.UpdateFailMalformedHTLC:
-						me.out = append(me.out, vMsg{kind: "fail", id: mm.ID})
-					case *lnwire.UpdateFee:
-						me.out = append(me.out, vMsg{kind: "fee", fee: int64(mm.FeePerKw)})
-					case *lnwire.CommitSig:
-						me.out = append(me.out, vMsg{kind: "sig", sigs: &CommitSigs{
-							CommitSig: mm.CommitSig, HtlcSigs: mm.HtlcSigs, PartialSig: mm.PartialSig}})
-					case *lnwire.RevokeAndAck:
-						me.out = append(me.out, vMsg{kind: "rev", rev: mm})
-						relh = vRelHeight(me.lc, mm)
-						nph = vPointIndex(me.lc, mm.NextRevocationKey)
-					default:
-						me.out = append(me.out, vMsg{kind: fmt.Sprintf("%T", x)})
-					}
-				}
-			default:
-				t.Fatalf("unknown action %q", e.A)
-			}
 
-			tl := vLine{vEv: e, St: map[string]vParty{}, Sh: map[string]vParty{}, SigOk: map[string]int{},
-				TxEq: txeq, RelH: relh, NPH: nph, LUP: lup, CRP: crp, NRK: nrk, RSK: rsk}
-			tl.A = name
-			tl.NTx = map[string]int64{}
-			for n, s := range sides {
-				now := vDbTxid(s.lc)
-				tl.NTx[n] = now - lastTx[n]
-				lastTx[n] = now
-			}
-			if err != nil && name != "AddRejected" {
-				tl.Err = err.Error()
-			}
-			doShadow := shadowEvery <= 1 || nsteps%shadowEvery == 0 || e.A == "Revoke" || e.A == "RecvRev" ||
-				e.A == "Sign" || e.A == "RecvReest"
-			for n, s := range sides {
-				tl.St[n] = vProject(s.lc, s.out)
-				tl.SigOk[n] = -1
+				tl := vLine{vEv: e, St: map[string]vParty{}, Sh: map[string]vParty{}, SigOk: map[string]int{},
+					TxEq: txeq, RelH: relh, NPH: nph, LUP: lup, CRP: crp, NRK: nrk, RSK: rsk}
+				tl.A = name
+				tl.NTx = map[string]int64{}
+				for n, s := range sides {
+					now := vDbTxid(s.lc)
+					tl.NTx[n] = now - lastTx[n]
+					lastTx[n] = now
+				}
+				if err != nil && name != "AddRejected" {
+					tl.Err = err.Error()
+				}
+				doShadow := shadowEvery <= 1 || nsteps%shadowEvery == 0 || e.A == "Revoke" || e.A == "RecvRev" ||
+					e.A == "Sign" || e.A == "RecvReest"
+				for n, s := range sides {
+					tl.St[n] = vProject(s.lc, s.out)
+					tl.SigOk[n] = -1
+					if !doShadow {
+						tl.Sh[n] = vParty{Net: []string{}, LC: []vCommit{}, RC: []vCommit{}, L: []vEntry{}, R: []vEntry{}, Fwd: []vFwd{}}
+						continue
+					}
+					sh, rerr := vReload(s.lc)
+					if rerr != nil {
+						tl.ShErr = n + ": " + rerr.Error()
+						tl.Sh[n] = vParty{Net: []string{}, LC: []vCommit{}, RC: []vCommit{}, L: []vEntry{}, R: []vEntry{}, Fwd: []vFwd{}}
+						continue
+					}
+					tl.Sh[n] = vProject(sh, nil)
+					okv, msg := vSignedCommitOk(sh)
+					tl.SigOk[n] = okv
+					if okv == 0 && tl.ShErr == "" {
+						tl.ShErr = n + ": " + msg
+					}
+				}
 				if !doShadow {
-					tl.Sh[n] = vParty{Net: []string{}, LC: []vCommit{}, RC: []vCommit{}, L: []vEntry{}, R: []vEntry{}, Fwd: []vFwd{}}
-					continue
+					tl.ShErr = "skipped"
 				}
-				sh, rerr := vReload(s.lc)
-				if rerr != nil {
-					tl.ShErr = n + ": " + rerr.Error()
-					tl.Sh[n] = vParty{Net: []string{}, LC: []vCommit{}, RC: []vCommit{}, L: []vEntry{}, R: []vEntry{}, Fwd: []vFwd{}}
-					continue
-				}
-				tl.Sh[n] = vProject(sh, nil)
-				okv, msg := vSignedCommitOk(sh)
-				tl.SigOk[n] = okv
-				if okv == 0 && tl.ShErr == "" {
-					tl.ShErr = n + ": " + msg
+				out.Emit(tl)
+				nsteps++
+				if err != nil {
+					t.Logf("%s: step %v: %v", filepath.Base(f), e, err)
+					break
 				}
 			}
-			if !doShadow {
-				tl.ShErr = "skipped"
-			}
-			out.Emit(tl)
-			nsteps++
-			if err != nil {
-				t.Logf("%s: step %v: %v", filepath.Base(f), e, err)
-				break
-			}
-		}
+		}()
 	}
 	t.Logf("executed %d behaviours, %d steps", len(files), nsteps)
 }
